@@ -876,8 +876,10 @@ func optSets(tier string, which string) []optSet {
 // entity fetches (merge candidates of createMultiFetch: datasource index, one envelope).
 func driverLine(tree *e2e.Tree, raw []*e2e.Fetch, opt optSet, subIdx map[string]int) string {
 	alive := map[int]bool{}
+	leafByID := map[int]*e2e.Fetch{}
 	for _, f := range tree.Fetches() {
 		alive[f.ID] = true
+		leafByID[f.ID] = f
 		for _, m := range f.Merged {
 			alive[m] = true
 		}
@@ -908,7 +910,13 @@ func driverLine(tree *e2e.Tree, raw []*e2e.Fetch, opt optSet, subIdx map[string]
 		}
 		var ds []int
 		seen := map[int]bool{}
-		for _, d := range f.Deps {
+		deps := f.Deps
+		if lf := leafByID[f.ID]; lf != nil && len(lf.Merged) == 0 {
+			// the post-processed record of an unmerged fetch carries the dependencies that
+			// addMissingNestedDependencies added (the sort key of orderSequenceByDependencies)
+			deps = append(append([]int(nil), f.Deps...), lf.Deps...)
+		}
+		for _, d := range deps {
 			if r, ok := rep[d]; ok {
 				d = r
 			}
